@@ -148,49 +148,69 @@ Section Calls.
   Variable srcs : list N.
   Variable src_local : N -> bool.
   Variable veqb : V -> V -> bool.
+  Variable ov_src : N.
   Hypothesis veqb_refl : forall v, veqb v v = true.
-  Notation run_calls' := (run_calls keqb kleb lower is_none is_empty known parse srcs src_local veqb).
+  Hypothesis keqb_refl : forall k, keqb k k = true.
+  Notation run_calls' := (run_calls keqb kleb lower is_none is_empty known parse srcs src_local veqb ov_src).
   Notation resolve' := (resolve keqb kleb lower is_none known parse srcs src_local).
+  Notation apply_upd' := (apply_upd keqb is_empty ov_src).
+  Notation final_hst' := (final_hst keqb is_empty ov_src).
+
+  (* HISTORY-LEVEL DETERMINISM.  One long-lived Config, any history of UpdateFrom / UpdateFromConfigUpdate / OverrideParam
+     calls, including calls whose resolve() failed half-way: the resolved configuration after the history is resolve() of
+     the sources as they are NOW (so every clause of the property transfers to histories), ... *)
+  Theorem c27_history_resolves_final_sources : forall fixed sorted us (h : hst K R) prev cerr d, us <> [] ->
+    k_res (last (run_calls' fixed sorted h prev cerr us) d) = resolve' fixed sorted (fst (final_hst' h us)).
+  Proof. exact (history_last K R V keqb kleb lower is_none is_empty known parse srcs src_local veqb ov_src). Qed.
+
+  (* ... hence two Configs whose histories end with the same sources (e.g. a long-lived one and a fresh one fed the final
+     sources) are resolved identically. *)
+  Theorem c27_same_final_sources_same_result : forall fixed sorted us1 us2 (h1 h2 : hst K R) p1 p2 e1 e2 d,
+    us1 <> [] -> us2 <> [] -> fst (final_hst' h1 us1) = fst (final_hst' h2 us2) ->
+    k_res (last (run_calls' fixed sorted h1 p1 e1 us1) d) = k_res (last (run_calls' fixed sorted h2 p2 e2 us2) d).
+  Proof. exact (same_final_sources_same_result K R V keqb kleb lower is_none is_empty known parse srcs src_local veqb ov_src). Qed.
 
   (* Config.Err after each call = Config.Err before OR an error returned by some call so far; once set it stays set. *)
-  Theorem c27_config_err_sticky : forall fixed sorted us (c : cfg K R) prev cerr,
-    map (@k_cerr K R V) (run_calls' fixed sorted c prev cerr us)
-    = scan_or cerr (map (@k_err K R V) (run_calls' fixed sorted c prev cerr us))
-    /\ Forall (fun k => k_cerr k = true) (run_calls' fixed sorted c prev true us).
+  Theorem c27_config_err_sticky : forall fixed sorted us (h : hst K R) prev cerr,
+    map (@k_cerr K R V) (run_calls' fixed sorted h prev cerr us)
+    = scan_or cerr (map (@k_err K R V) (run_calls' fixed sorted h prev cerr us))
+    /\ Forall (fun k => k_cerr k = true) (run_calls' fixed sorted h prev true us).
   Proof.
     intros. split.
-    - exact (cerr_scan K R V keqb kleb lower is_none is_empty known parse srcs src_local veqb fixed sorted us c prev cerr).
-    - exact (cerr_sticky K R V keqb kleb lower is_none is_empty known parse srcs src_local veqb fixed sorted us c prev).
+    - exact (cerr_scan K R V keqb kleb lower is_none is_empty known parse srcs src_local veqb ov_src fixed sorted us h prev cerr).
+    - exact (cerr_sticky K R V keqb kleb lower is_none is_empty known parse srcs src_local veqb ov_src fixed sorted us h prev).
   Qed.
 
   (* `changed`: a call that leaves the raw configuration as it is (the ConfigUpdate message carrying what Felix already
      has; the same datastore config again) reports no changed field and no error, after a successful resolve. *)
-  Theorem c27_unchanged_config_reports_no_change : forall fixed sorted (c : cfg K R) st cerr u t,
-    resolve' fixed sorted c = Some st -> apply_upd is_empty c u = c ->
-    match run_calls' fixed sorted c (Some st) cerr (u :: t) with
+  Theorem c27_unchanged_config_reports_no_change : forall fixed sorted (h : hst K R) st cerr u t,
+    resolve' fixed sorted (fst h) = Some st -> fst (apply_upd' h u) = fst h ->
+    match run_calls' fixed sorted h (Some st) cerr (u :: t) with
     | k :: _ => k_changed k = Some [] /\ k_err k = false /\ k_res k = Some st
     | [] => False
     end.
-  Proof. exact (unchanged_cfg_unchanged_fields K R V keqb kleb lower is_none is_empty known parse srcs src_local veqb veqb_refl). Qed.
+  Proof. exact (unchanged_cfg_unchanged_fields K R V keqb kleb lower is_none is_empty known parse srcs src_local veqb ov_src veqb_refl). Qed.
 
-  Theorem c27_repeated_update_reports_no_change : forall fixed sorted (c : cfg K R) prev cerr u t st,
-    resolve' fixed sorted (apply_upd is_empty c u) = Some st ->
-    match run_calls' fixed sorted c prev cerr (u :: u :: t) with
+  Theorem c27_repeated_update_reports_no_change : forall fixed sorted (h : hst K R) prev cerr u t st,
+    resolve' fixed sorted (fst (apply_upd' h u)) = Some st ->
+    match run_calls' fixed sorted h prev cerr (u :: u :: t) with
     | _ :: k2 :: _ => k_changed k2 = Some [] /\ k_err k2 = false
     | _ => False
     end.
-  Proof. exact (repeat_update_unchanged K R V keqb kleb lower is_none is_empty known parse srcs src_local veqb veqb_refl). Qed.
+  Proof. exact (repeat_update_unchanged K R V keqb kleb lower is_none is_empty known parse srcs src_local veqb ov_src veqb_refl keqb_refl). Qed.
 
   (* UpdateFromConfigUpdate replaces every source: the result of that call and of all later calls is a function of the
-     message (and the later calls) alone, whatever the Config held before. *)
-  Theorem c27_config_update_message_decides : forall fixed sorted (c1 c2 : cfg K R) p1 p2 e1 e2 msg t,
-    match run_calls' fixed sorted c1 p1 e1 (UAll msg :: t), run_calls' fixed sorted c2 p2 e2 (UAll msg :: t) with
+     message, the overrides and the later calls alone, whatever sources the Config held before. *)
+  Theorem c27_config_update_message_decides : forall fixed sorted (c1 c2 : cfg K R) ov p1 p2 e1 e2 msg t,
+    match run_calls' fixed sorted (c1, ov) p1 e1 (UAll msg :: t), run_calls' fixed sorted (c2, ov) p2 e2 (UAll msg :: t) with
     | k1 :: r1, k2 :: r2 => k_res k1 = resolve' fixed sorted msg /\ k_res k1 = k_res k2 /\ k_err k1 = k_err k2
                             /\ map (@k_res K R V) r1 = map (@k_res K R V) r2
     | _, _ => False
     end.
-  Proof. exact (config_update_decides K R V keqb kleb lower is_none is_empty known parse srcs src_local veqb). Qed.
+  Proof. exact (config_update_decides K R V keqb kleb lower is_none is_empty known parse srcs src_local veqb ov_src). Qed.
 End Calls.
+Print Assumptions c27_history_resolves_final_sources.
+Print Assumptions c27_same_final_sources_same_result.
 Print Assumptions c27_config_err_sticky.
 Print Assumptions c27_unchanged_config_reports_no_change.
 Print Assumptions c27_repeated_update_reports_no_change.
